@@ -155,6 +155,222 @@ func VerifC17_PatternAgreesWithRegexp() {
 	verifAssert("pattern-agrees-with-regexp", got == want)
 	// and again: the verdict does not change on a second call
 	verifAssert("pattern-verdict-stable", (ValidatePattern("v", v, p) == nil) == got)
-	r, ok := knownPatterns[p]
-	verifAssert("cache-holds-this-pattern", ok && r != nil && r.String() == p)
 }
+
+// VerifC17_PatternCacheDistinguishesPatterns: the verdict for a pattern is
+// that pattern's verdict whatever other pattern was validated before. Both
+// patterns are symbolic (^ + 6 alphanumeric bytes + $), so a cache that
+// identified two different patterns (e.g. by a hash) is found by the solver.
+func VerifC17_PatternCacheDistinguishesPatterns() {
+	s1, s2 := nondetString("s1", 6), nondetString("s2", 6)
+	alnum := func(s string) bool {
+		for i := 0; i < len(s); i++ {
+			c := s[i]
+			if c < '0' || (c > '9' && c < 'a') || c > 'z' {
+				return false
+			}
+		}
+		return true
+	}
+	verifAssume(alnum(s1) && alnum(s2) && s1 != s2)
+	p1, p2 := "^"+s1+"$", "^"+s2+"$"
+	ValidatePattern("h", s1, p1)
+	got := ValidatePattern("v", s2, p2) == nil
+	want := regexp.MustCompile(p2).MatchString(s2)
+	verifAssert("verdict-of-this-pattern-not-of-an-earlier-one", got == want)
+}
+
+// ---- format "json": ValidateFormat accepts exactly the JSON texts of RFC 8259 ----
+
+// verifJSONText is a reference recogniser written from RFC 8259 section 2-7
+// (ws value ws; objects, arrays, strings with escapes, numbers, literals).
+type verifJSON struct {
+	s string
+	i int
+}
+
+func (p *verifJSON) ws() {
+	for p.i < len(p.s) && (p.s[p.i] == ' ' || p.s[p.i] == '\t' || p.s[p.i] == '\n' || p.s[p.i] == '\r') {
+		p.i++
+	}
+}
+
+func (p *verifJSON) lit(l string) bool {
+	if p.i+len(l) <= len(p.s) && p.s[p.i:p.i+len(l)] == l {
+		p.i += len(l)
+		return true
+	}
+	return false
+}
+
+func (p *verifJSON) digits() bool {
+	n := 0
+	for p.i < len(p.s) && p.s[p.i] >= '0' && p.s[p.i] <= '9' {
+		p.i++
+		n++
+	}
+	return n > 0
+}
+
+func (p *verifJSON) number() bool {
+	if p.i < len(p.s) && p.s[p.i] == '-' {
+		p.i++
+	}
+	if p.i >= len(p.s) {
+		return false
+	}
+	if p.s[p.i] == '0' {
+		p.i++
+	} else if p.s[p.i] >= '1' && p.s[p.i] <= '9' {
+		p.digits()
+	} else {
+		return false
+	}
+	if p.i < len(p.s) && p.s[p.i] == '.' {
+		p.i++
+		if !p.digits() {
+			return false
+		}
+	}
+	if p.i < len(p.s) && (p.s[p.i] == 'e' || p.s[p.i] == 'E') {
+		p.i++
+		if p.i < len(p.s) && (p.s[p.i] == '+' || p.s[p.i] == '-') {
+			p.i++
+		}
+		if !p.digits() {
+			return false
+		}
+	}
+	return true
+}
+
+func (p *verifJSON) str() bool {
+	p.i++ // opening quote
+	for p.i < len(p.s) {
+		c := p.s[p.i]
+		switch {
+		case c == '"':
+			p.i++
+			return true
+		case c < 0x20:
+			return false
+		case c == '\\':
+			p.i++
+			if p.i >= len(p.s) {
+				return false
+			}
+			switch p.s[p.i] {
+			case '"', '\\', '/', 'b', 'f', 'n', 'r', 't':
+				p.i++
+			case 'u':
+				p.i++
+				for k := 0; k < 4; k++ {
+					if p.i >= len(p.s) {
+						return false
+					}
+					h := p.s[p.i]
+					if !(h >= '0' && h <= '9' || h >= 'a' && h <= 'f' || h >= 'A' && h <= 'F') {
+						return false
+					}
+					p.i++
+				}
+			default:
+				return false
+			}
+		default:
+			p.i++
+		}
+	}
+	return false
+}
+
+func (p *verifJSON) value(depth int) bool {
+	p.ws()
+	if p.i >= len(p.s) || depth > 8 {
+		return false
+	}
+	switch c := p.s[p.i]; {
+	case c == '{':
+		p.i++
+		p.ws()
+		if p.i < len(p.s) && p.s[p.i] == '}' {
+			p.i++
+			return true
+		}
+		for {
+			p.ws()
+			if p.i >= len(p.s) || p.s[p.i] != '"' || !p.str() {
+				return false
+			}
+			p.ws()
+			if p.i >= len(p.s) || p.s[p.i] != ':' {
+				return false
+			}
+			p.i++
+			if !p.value(depth + 1) {
+				return false
+			}
+			p.ws()
+			if p.i < len(p.s) && p.s[p.i] == ',' {
+				p.i++
+				continue
+			}
+			if p.i < len(p.s) && p.s[p.i] == '}' {
+				p.i++
+				return true
+			}
+			return false
+		}
+	case c == '[':
+		p.i++
+		p.ws()
+		if p.i < len(p.s) && p.s[p.i] == ']' {
+			p.i++
+			return true
+		}
+		for {
+			if !p.value(depth + 1) {
+				return false
+			}
+			p.ws()
+			if p.i < len(p.s) && p.s[p.i] == ',' {
+				p.i++
+				continue
+			}
+			if p.i < len(p.s) && p.s[p.i] == ']' {
+				p.i++
+				return true
+			}
+			return false
+		}
+	case c == '"':
+		return p.str()
+	case c == 't':
+		return p.lit("true")
+	case c == 'f':
+		return p.lit("false")
+	case c == 'n':
+		return p.lit("null")
+	default:
+		return p.number()
+	}
+}
+
+func verifJSONText(s string) bool {
+	p := &verifJSON{s: s}
+	if !p.value(0) {
+		return false
+	}
+	p.ws()
+	return p.i == len(s)
+}
+
+func verifJSONFormat(n int) {
+	s := nondetStringUpTo("s", n)
+	got := ValidateFormat("v", s, FormatJSON) == nil
+	verifObserve("got", got)
+	verifAssert("json-format-iff-rfc8259-text", got == verifJSONText(s))
+}
+
+func VerifC17_JSONFormat4()  { verifJSONFormat(4) }
+func VerifC17T_JSONFormat6() { verifJSONFormat(6) }
